@@ -1,4 +1,5 @@
 use crate::errors::SwiftValidationError;
+use crate::fields::swift_utils::amounts_equal;
 use crate::fields::*;
 use crate::parser::utils::*;
 use serde::{Deserialize, Serialize};
@@ -740,7 +741,7 @@ impl MT107 {
                 let amount_33b = field_33b.amount;
 
                 // Both currency and amount must not be the same
-                if currency_32b == currency_33b && (amount_32b - amount_33b).abs() < 0.01 {
+                if currency_32b == currency_33b && amounts_equal(amount_32b, amount_33b) {
                     errors.push(SwiftValidationError::content_error(
                         "D21",
                         "33B",
@@ -838,7 +839,7 @@ impl MT107 {
             // Field 19 should be present and equal to sum
             if let Some(ref field_19) = self.field_19 {
                 let field_19_amount = field_19.amount;
-                if (field_19_amount - sum_of_amounts).abs() >= 0.01 {
+                if !amounts_equal(field_19_amount, sum_of_amounts) {
                     errors.push(SwiftValidationError::content_error(
                         "C01",
                         "19",
@@ -862,7 +863,7 @@ impl MT107 {
         } else {
             // No charges - field 32B of Sequence C should equal sum, field 19 must not be present
             let settlement_amount = self.field_32b.amount;
-            if (settlement_amount - sum_of_amounts).abs() >= 0.01 {
+            if !amounts_equal(settlement_amount, sum_of_amounts) {
                 errors.push(SwiftValidationError::content_error(
                     "D80",
                     "32B",
